@@ -232,7 +232,10 @@ def run(tier, seed):
         for s in SCALARS:
             reqs.append({"op": "scalar", "scalar": s, "dir": "lit", "value": w, "stf": tbl})
     # ---- real side + laws
-    from tartiflette.utils.values import is_integer
+    try:
+        from tartiflette.utils.values import is_integer       # an internal helper: may be renamed or moved by a refactoring
+    except Exception:
+        is_integer = None
     law_failures = []
     real_res = []
     kinds = {}
@@ -240,7 +243,7 @@ def run(tier, seed):
         s, d = r["scalar"], r["dir"]
         pv = dec(r["value"], UNDEF)
         if s == "is_integer":
-            res = call_real(is_integer, pv, UNDEF)
+            res = call_real(is_integer, pv, UNDEF) if is_integer is not None else {"skipped": "helper not found under its old name"}
         else:
             sc = real[s]
             fn = {"out": sc.coerce_output, "in": sc.coerce_input, "lit": sc.parse_literal}[d]
@@ -271,6 +274,7 @@ def run(tier, seed):
         finally:
             m.close()
         for r, a, e in zip(reqs, mres, real_res):
+            if "skipped" in e: continue
             if "fail" in a:
                 disagreements.append({"req": r, "model": a, "real": e}); continue
             if ("ok" in a) != ("ok" in e) or ("ok" in a and not same(a["ok"], e["ok"])):
